@@ -20,7 +20,7 @@ spy(MIG, "apply_migrations")
 CODE = ["signac.project.Project._check_schema_compatibility / __init__ / get_project / init_project", "signac._config._raise_if_older_schema / _locate_config_dir / _load_config", "signac.migration.apply_migrations / _collect_migrations / _get_config_schema_version",
         "signac.migration.v0_to_v1 / v1_to_v2"]
 BOUNDS = {"gate": "direct z3 query generated from the AST of Project._check_schema_compatibility: ALL integers; executed under CrossHair for v in [-8, 16] and as a decimal string for v in [-20, 40] (quick) / |v| <= 1000 (thorough)", "refuse": "v2 layout with schema_version in {0,1,3,10} and legacy signac.rc layout with version {absent,0,1,2,3,10} x {Project(), get_project, init_project}, "
-          "with a workspace holding a job, a project document and a cache file", "migrate": "project name {None, proj, 'my proj-1.0!'} x workspace_dir {default, ws, a/ws, custom + colliding 'workspace'} x v1 cache file x shell history x 0-2 jobs with document/file x start version {absent, 0, 1}"}
+          "with a workspace holding a job, a project document and a cache file", "migrate": "project name {None, proj, 'my proj-1.0!', 'sims, run #2' (quoted in signac.rc)} x workspace_dir {default, ws, a/ws, 'w,s' (quoted), custom + colliding 'workspace'} x v1 cache file x shell history x 0-2 jobs with document/file x start version {absent, 0, 1}"}
 OUTSIDE = ["non-ASCII project names", "concurrent migrations (the file lock is not modelled)", "crashes in the middle of a migration"]
 STUBS = ["gate harness: a Project object carrying only a config mapping"]
 ASSUMPTIONS = ["tmpfs behaves like the user's file system"]
@@ -71,12 +71,14 @@ def h_gate_str(v: int):
 def _mk_v1(root, name, wsdir, version, cache, history, njobs, collide):
     os.makedirs(root)
     lines = []
+    def rc(v):   # configobj quoting: values with a comma or a '#' must be written in quotes (as signac 1.x / configobj wrote them)
+        return '"%s"' % v if ("," in v or "#" in v) else v
     if name is not None:
-        lines.append(f"project = {name}")
+        lines.append(f"project = {rc(name)}")
     else:
         lines.append("project = None")
     if wsdir != "workspace":
-        lines.append(f"workspace_dir = {wsdir}")
+        lines.append(f"workspace_dir = {rc(wsdir)}")
     if version is not None:
         lines.append(f"schema_version = {version}")
     with open(os.path.join(root, "signac.rc"), "w") as f:
@@ -125,8 +127,8 @@ def _observe_project(root):
     return out, pr
 
 
-NAMES = [None, "proj", "my proj-1.0!"]
-WSDIRS = ["workspace", "ws", "a/ws"]
+NAMES = [None, "proj", "my proj-1.0!", "sims, run #2"]
+WSDIRS = ["workspace", "ws", "a/ws", "w,s"]
 
 
 def _migrate_case(name, wsd, version, cache, history, njobs, collide):
@@ -209,10 +211,10 @@ def _migrate_case(name, wsd, version, cache, history, njobs, collide):
 
 
 def h_migrate(name: int, wsd: int, ver: int, cache: bool, history: bool, njobs: int, collide: bool):
-    assert 0 <= name <= 2 and 0 <= wsd <= 2 and 0 <= ver <= 2 and 0 <= njobs <= 2 and part_ok(wsd * 3 + ver)
+    assert 0 <= name <= 3 and 0 <= wsd <= 3 and 0 <= ver <= 2 and 0 <= njobs <= 2 and part_ok(wsd * 3 + ver)
     assert (wsd != 0) or not collide
     fresh_path()
-    name, wsd, ver, cache, history, njobs, collide = ci(name, 0, 2), ci(wsd, 0, 2), pick([None, 0, 1], ver), cb(cache), cb(history), ci(njobs, 0, 2), cb(collide)
+    name, wsd, ver, cache, history, njobs, collide = ci(name, 0, 3), ci(wsd, 0, 3), pick([None, 0, 1], ver), cb(cache), cb(history), ci(njobs, 0, 2), cb(collide)
     with nt():
         problems = _migrate_case(name, wsd, ver, cache, history, njobs, collide)
     reached()
